@@ -64,7 +64,7 @@ def main():
     variants = sorted(set(r[0] for r in runs)); blds = {}
     for v in variants: blds[v] = build(v)
     env = dict(os.environ)
-    env["ASAN_OPTIONS"] = "detect_leaks=0:halt_on_error=0:abort_on_error=0:allocator_may_return_null=1:detect_stack_use_after_return=0"
+    env["ASAN_OPTIONS"] = "exitcode=86:detect_leaks=0:halt_on_error=0:abort_on_error=0:allocator_may_return_null=1:detect_stack_use_after_return=0"
     env["UBSAN_OPTIONS"] = "print_stacktrace=0:halt_on_error=0"
     env["TSAN_OPTIONS"] = "halt_on_error=0:report_signal_unsafe=0"
     env["OMPI_ALLOW_RUN_AS_ROOT"] = "1"; env["OMPI_ALLOW_RUN_AS_ROOT_CONFIRM"] = "1"; env["OMPI_MCA_btl"] = "self,vader"
@@ -115,7 +115,10 @@ def main():
                 viols.setdefault(key, dict(key=key, what="harness process died with status %s while executing this case" % sig, case=fam, count=0, variant=j["variant"], check=j["check"]))
                 viols[key]["count"] += 1
                 exhaustive = False; notes.append("shard died: everything after case '%s' in that shard was not explored" % fam[:200])
-        if d is None: continue
+        if d is None:
+            if j["rc"] in (0, 1) and not j.get("timeout"):
+                engine_error = True; print("ENGINE-ERROR: shard produced no result file although it exited with", j["rc"], ":", " ".join(j["cmd"]))
+            continue
         for k in ("states", "transitions", "evaluations", "skipped"): cov[k] += d.get(k, 0)
         cov["distinct_nontrivial"] += d.get("distinct_nontrivial", 0)
         cov["traces_validated_against_impl"] += d.get("traces_validated", 0)
